@@ -416,6 +416,11 @@ def _geojson_to_shapely(xx: Any) -> base.BaseGeometry:
     _type = xx.get("type", None)
 
     def to_geom(x) -> base.BaseGeometry:
+        if x.get("type", "") == "GeometryCollection":
+            # no "coordinates" at this level
+            return geometry.GeometryCollection(
+                [to_geom(g) for g in x.get("geometries", [])]
+            )
         return geometry.shape(force_2d(x))
 
     if _type is None:
